@@ -397,6 +397,12 @@ class Evaluator(Run):
             return self.is_(a, b)
         if isinstance(op, ast.IsNot):
             return z3.Not(self.is_(a, b))
+        if isinstance(op, (ast.In, ast.NotIn)) and b.t.kind == "opaque" and not b.is_const:
+            # membership in an opaque container: its declared `__contains__` external
+            from . import models
+
+            r = self.truthy(models.call_method(self, b, "__contains__", [a], {}, node))
+            return r if isinstance(op, ast.In) else z3.Not(r)
         if isinstance(op, ast.In):
             return self.contains(b, a, self.old_heap)
         if isinstance(op, ast.NotIn):
@@ -678,6 +684,13 @@ class Evaluator(Run):
                 ks = g["keys"]
                 return Iter(z3.Length(ks.z), lambda i, s=ks: V(s.t.elem, s.z[i]), src_locs=[v.z])
             raise Unsupported("iteration over dict without key-order ghost")
+        if k == "opaque":
+            # the elements of an opaque iterable: an uninterpreted sequence of the declared element type
+            et = self.ctx.c.config.get("iter_of", {}).get(v.t.name)
+            if et is not None:
+                st = T.Seq(et)
+                sv = self.ctx.uf_apply(self, "elems_" + v.t.name, [v], st)
+                return Iter(z3.Length(sv.z), lambda i, s=sv: V(s.t.elem, nth(s.z, i)), seq=sv)
         raise Unsupported("iteration over %s" % v.t)
 
     # ================================================================== calls
@@ -1411,6 +1424,8 @@ class Evaluator(Run):
                     models.call_method(self, base, "pop", [self.ev(t.slice, frame)], {}, t)
                 elif base.t.kind == "obj":
                     self.call_value(const(BoundMethod(base, "__delitem__")), [self.ev(t.slice, frame)], {}, t, frame)
+                elif base.t.kind == "opaque":
+                    models.call_method(self, base, "__delitem__", [self.ev(t.slice, frame)], {}, t)
                 else:
                     raise Unsupported("del subscript on %s" % base.t)
             elif isinstance(t, ast.Attribute):
